@@ -295,7 +295,11 @@ func (t *Table) get(offset uint64) storage.Entry {
 
 	vlen := binary.BigEndian.Uint32(t.memory[offset : offset+4])
 	offset += 4
-	e.SetValue(t.memory[offset : offset+uint64(vlen)])
+	// Create a copy of the value, the caller is free to modify it and
+	// the table memory may be reused after a compaction.
+	value := make([]byte, vlen)
+	copy(value, t.memory[offset:offset+uint64(vlen)])
+	e.SetValue(value)
 	return e
 }
 
@@ -336,7 +340,11 @@ func (t *Table) Get(hkey uint64) (storage.Entry, error) {
 
 	vlen := binary.BigEndian.Uint32(t.memory[offset : offset+4])
 	offset += 4
-	e.SetValue(t.memory[offset : offset+uint64(vlen)])
+	// Create a copy of the value, the caller is free to modify it and
+	// the table memory may be reused after a compaction.
+	value := make([]byte, vlen)
+	copy(value, t.memory[offset:offset+uint64(vlen)])
+	e.SetValue(value)
 
 	return e, nil
 }
